@@ -232,7 +232,7 @@ def run(prop, tier, seed, t0):
                             m_ = re.search(r'sigint_actions_before=(\d+) creat_after_last_sigint_action=(\d+)', outp); ran = 'status=exit 2' in outp
                             nact, creat = (int(m_.group(1)), int(m_.group(2))) if m_ else (-1, 0)
                             if ran: key += ':handler-ran'
-                            elif nact >= 0 and nact % 2 == 0 and creat: key += ':around-destination-creation(before-handler-installation)'
+                            elif nact == 0 or (nact > 0 and nact % 2 == 0 and creat): key += ':around-destination-creation(before-handler-installation)'      # no handler was ever installed in this run, or a file was created since the last removal
                             elif nact >= 0 and nact % 2 == 0: key += ':after-handler-removal'
                             else: key += ':handler-installed-but-default-action'
                         add(key, msg + ' [SIGINT k=%d, destination created at k=%s]' % (k, k_created), si * 100000 + 50000 + k)
